@@ -39,6 +39,9 @@ type Entry struct {
 	Grid       string         `json:"grid"`
 	Timing     *TimingClasses `json:"timing"`
 	Sizes      []Size         `json:"sizes"`
+	// Synthetic: a host program of this harness, not a shipped workload. Only the placement lattice (C18a)
+	// runs it, in timing mode also in the quick tier.
+	Synthetic bool `json:"synthetic"`
 }
 
 // Matrix is the parsed c01_matrix.json.
@@ -159,6 +162,9 @@ func (m *Matrix) C01Cases(thorough bool) ([]Case, LatticeStats) {
 	}
 	for i := range m.Workloads {
 		e := &m.Workloads[i]
+		if e.Synthetic {
+			continue
+		}
 		for _, s := range e.Sizes {
 			if !thorough && !s.Quick && !s.Spread {
 				continue
